@@ -48,6 +48,13 @@ for _v, _cls in (("categoric_rows", "formulae.terms.variable.Variable"),):
                  ensures=["not warned()", "result[1].shape[0] == rows.shape[0]", "result[1].shape[1] == result[0].shape[1]",
                           "forall(0, rows.shape[0], lambda i: forall(0, result[0].shape[1], lambda j: result[1][i, j] == result[0][rows[i], j]))"])
 
+REG.contract(L + "c06.bspline_rows", params=dict(transforms_c.BS_PARAMS, t=T + "BSpline", rows="arr1"), returns="any", tags=["C06", "C14"],
+             requires=["not t.params_set", "x.shape[0] >= 1"] + [c.format(n="x.shape[0]") for c in ROWS_OK],
+             modifies=["t.params_set", "t._intercept", "t._degree", "t._knots"], raises={"ValueError": None},
+             ensures=["result[1].shape[0] == rows.shape[0]", "result[1].shape[1] == result[0].shape[1]",
+                      "implies(df is not None, result[1].shape[1] == df)",
+                      "forall(0, rows.shape[0], lambda i: forall(0, result[0].shape[1], lambda c: result[1][i, c] == result[0][rows[i], c]))"])
+
 # ---- C04 -------------------------------------------------------------------------------------------------------------
 KEPT = "v.levels[j if spans_intercept else j + 1]"
 for _cls, _tag in (("formulae.terms.variable.Variable", ""), ("formulae.terms.call.Call", "_call")):
@@ -89,7 +96,7 @@ REG.contract(L + "c01.scan_then_parse", params={"code": "list[char]"}, returns="
              requires=["len(code) >= 1"], raises={"ScanError": None, "IndexError": None, "ParseError": None},
              ensures=["result is not None", "strat(result)"])
 
-FUNCTIONS = [L + "c06.center_rows", L + "c06.scale_rows", L + "c06.categoric_rows", L + "c01.scan_then_parse",
+FUNCTIONS = [L + "c06.center_rows", L + "c06.scale_rows", L + "c06.categoric_rows", L + "c06.bspline_rows", L + "c01.scan_then_parse",
              L + "c04.main_effect", L + "c04.main_effect#call", L + "c04.pair_interaction", L + "c17.block_view", L + "c17.block_view#group"]
 ASSUMPTIONS = ["property lemmas are verified on harness functions under /verif/vf/proplemmas that only call the real functions; each "
                "callee is represented by its contract (proved separately on the real source)",
